@@ -206,4 +206,12 @@ def nonAscii (body : List Nat) : Prop := ∃ c, c ∈ body ∧ c ≥ 128
 /-- "bytes and str literals cannot be mixed in one concatenation" (`true` = bytes) -/
 def mixed (isBytes : List Bool) : Prop := true ∈ isBytes ∧ false ∈ isBytes
 
+/-- the items of a single-quoted literal (Language Reference 2.4.1): a character other than backslash,
+    newline and the quote, or a backslash followed by any character -/
+inductive ShortItems (q : Nat) : List Nat → Prop where
+  | nil : ShortItems q []
+  | esc (c : Nat) {t : List Nat} : ShortItems q t → ShortItems q (92 :: c :: t)
+  | plain (c : Nat) {t : List Nat} : c ≠ 92 → c ≠ 10 → c ≠ q → ShortItems q t → ShortItems q (c :: t)
+
+
 end PV.C04.Spec
